@@ -8,6 +8,8 @@ mod e3_core;
 mod e3_hist;
 #[path = "../../shared/e3_times.rs"]
 mod e3_times;
+#[path = "../../shared/e3_async.rs"]
+mod e3_async;
 #[path = "../../shared/e3_main.rs"]
 mod e3_main;
 
